@@ -57,6 +57,7 @@ func ruleRPCResources(c *Ctx) {
 	popL := p.Method("server.Subscription.populateResourcesLegacy")
 	rel := p.Method("server.Subscription.ReleaseRPCResources")
 	send := []*types.Func{p.Method("server.ConnSubscriber.Send"), p.Method("server.wsConn.Send")}
+	unsubFns := []*types.Func{p.Method("server.ConnSubscriber.Unsubscribe"), p.Method("server.wsConn.Unsubscribe")}
 	if getRPC == nil || pop == nil || rel == nil {
 		c.undecided("server.Subscription.GetRPCResources", "anchor", "-", "not found")
 		return
@@ -95,6 +96,9 @@ func ruleRPCResources(c *Ctx) {
 			}
 			if call, ok := isCallTo(in, rel); ok {
 				return []Ev{{Kind: "release", Note: elemKey(t, fr, callArgs(call.Common())[0]), Stop: true}}
+			}
+			if call, ok := isCallTo(in, unsubFns...); ok {
+				return []Ev{{Kind: "unsub", Note: elemKey(t, fr, callArgs(call.Common())[1]), Stop: true}}
 			}
 			if _, ok := isCallTo(in, send...); ok {
 				return []Ev{{Kind: "send", Stop: true}}
@@ -140,6 +144,9 @@ func ruleRPCResources(c *Ctx) {
 				for j := i + 1; j < ri; j++ {
 					if path[j].Kind == "send" {
 						si = j
+					}
+					if path[j].Kind == "unsub" && path[j].Note == e.Note {
+						bad = "the subscription is unsubscribed (and possibly disposed) while its resources are still marked to-send: the release after it is a no-op on a disposed subscription and shared children stay 'to send' without ever reaching the client: " + tr.FmtPath(path)
 					}
 				}
 				if si < 0 {
